@@ -185,6 +185,9 @@ func runStress(k scaseT) (logged []int, runs [][]runT, cycles int) {
 	stop.Store(true)
 	wg.Wait()
 	if bl != nil {
+		// the batch is closed between StartBuffering and FlushBuffer (a component that batches on the application's
+		// logger and shuts down before the startup buffer is flushed): what it held must still come out
+		l.StartBuffering()
 		bl.Close()
 	}
 	_ = l.FlushBuffer()
